@@ -44,6 +44,7 @@ func (sr *srcRenderer) kvName(n string) string {
 var rangeColl = map[string][2]string{ // kind -> variable, type
 	"slice": {"s", "[]int"}, "array": {"arr", "[3]int"}, "string": {"str", "string"}, "int": {"n", "int"}, "chan": {"ch", "chan int"},
 	"int0": {"n0", "int"}, "map1": {"m1", "map[int]int"},
+	"iter": {"it", "Iter[int]"}, // the local iterator it := D2(r, 3, b): a generator ranging over an iterator
 }
 
 var namedColl = map[string]string{"slice": "rt.SliceT", "array": "rt.ArrT", "string": "rt.StrT", "int": "rt.IntT", "chan": "rt.ChanT"}
@@ -81,6 +82,9 @@ func (sr *srcRenderer) rangeStmt(m J, ind string) string {
 		}
 		return "", "-7"
 	}
+	if kind == "iter" && sr.md == natMode {
+		x = "it.All()"
+	}
 	if m["xf"] == "named" {
 		x = namedColl[kind] + "(" + coll[0] + ")"
 	}
@@ -114,6 +118,9 @@ func (sr *srcRenderer) rangeStmt(m J, ind string) string {
 			hdr = strings.Replace(hdr, ", vv = range", ", rv = range", 1)
 			inject = in2 + "vv = int(rv)\n"
 		}
+	}
+	if kind == "iter" && m["kf"] == "def" {
+		inject = in2 + "_ = k\n"
 	}
 	sr.kv = append(sr.kv, [2]string{kr, vr})
 	body := inject + sr.block(m["body"], in2)
@@ -672,11 +679,12 @@ func (sr *srcRenderer) genFunc(name string, prog []any, trailing string) string 
 	if usesKind(prog, "callf") {
 		prolog += "\tf := func() { a += 100 }\n\t_ = f\n"
 	}
-	if usesKind(prog, "range") || usesKind(prog, "effkk") {
+	iterRange := strings.Contains(canon(prog), `"kind":"iter"`)
+	if (usesKind(prog, "range") && !iterRange) || usesKind(prog, "effkk") {
 		prolog += rangeProlog
 	}
 	prolog += optProlog(prog, name)
-	if usesKind(prog, "pullit") || usesKind(prog, "yfromit") {
+	if usesKind(prog, "pullit") || usesKind(prog, "yfromit") || iterRange {
 		prolog += "\tit := D2(r, 3, b)\n\t_ = it\n"
 	}
 	tailDecl := pkgVars(prog, name)
